@@ -134,7 +134,7 @@ func probeKind(t *req.Transport, ct string) string {
 func (w *world) cloneCells() {
 	rnd := w.rnd
 	gbk := specByName("gbk")
-	n := w.r.Scale(260, 4000)
+	n := w.r.Scale(170, 4000)
 	for p := 0; p < n; p++ {
 		clientFlavor := p%3 == 0
 		root := &cfgNode{want: defaultSet}
@@ -195,7 +195,7 @@ func (w *world) cloneCells() {
 				}
 				u := &unitCase{Kind: "unit", Doc: d, Set: nd.want, Chunks: [][]byte{d.Body}, EOFLast: rnd.Bool(), Pattern: []int{512},
 					BufMode: "zero", FailAt: -1, tr: nd.transport(), CfgProg: fmt.Sprintf("program %d: %v; probing node %d", p, ops, j)}
-				w.eval(u, rnd.Intn(12) == 0)
+				w.eval(u, rnd.Intn(25) == 0)
 			}
 		}
 		// the whole program for the Coq model of configurations: reader kinds of every transport x content type
